@@ -281,3 +281,19 @@ func TestReplay(t *testing.T) {
 	}
 	fmt.Printf("REPLAY-OK property=%s\n", fr.Property)
 }
+
+func envTier() string { return os.Getenv("VERIF_TIER") }
+
+// evalFast is Eval that only serializes the case when it is non-trivial.
+func (s *Stats) evalFast(c Case, nontrivial bool, classes ...string) {
+	if nontrivial {
+		s.Eval(c.JSON(), true, classes...)
+		return
+	}
+	s.mu.Lock()
+	s.Evals++
+	for _, cl := range classes {
+		s.Classes[cl]++
+	}
+	s.mu.Unlock()
+}
